@@ -212,6 +212,22 @@ def run_unit(unit):
                 det2 = dict(det, after='set_index(1.80)', surface_edited=gi + 1)
                 study(part, o, rows2, 'chief', ft, mf, obj, 'after-set_index-', cond, det2)
                 study(part, o, rows2, 'marginal', ft, mf, obj, 'after-set_index-', cond, det2)
+        # ---- history: change the radius of the first curved surface (every shape, the even asphere included) on the same lens
+        #      object, observe again: real rays and the paraxial model must both follow the radius now in force
+        ri = next((i for i, s_ in enumerate(sp['surfs']) if math.isfinite(s_.get('R', LZ.INF)) and s_['R'] != 0), None)
+        if ri is not None and apx[0] == 'EPD':
+            import copy as _copy
+            sp3 = _copy.deepcopy(sp2 if gi is not None else sp)
+            newR = 1.3 * sp3['surfs'][ri]['R']
+            sp3['surfs'][ri]['R'] = newR
+            o.set_radius(newR, ri + 1)
+            part.transitions += 1
+            rows3 = prescription.rows(sp3, lambda m, prev: LZ.ref_index(m, 0.5876, prev))
+            if not abcd.pupil_degenerate(rows3):
+                det3 = dict(det, after='set_radius(1.3 R)', surface_edited=ri + 1, shape=sp3['surfs'][ri]['shape'])
+                part.count('set_radius-histories')
+                study(part, o, rows3, 'marginal', ft, mf, obj, 'after-set_radius-', cond, det3)
+                study(part, o, rows3, 'chief', ft, mf, obj, 'after-set_radius-', cond, det3)
     part.sample(dict(word=unit['word'], stop=unit['stop']))
     return part
 
